@@ -41,6 +41,6 @@ Proof.
   split; [exact strtod_ref_ok|]. split; [repeat constructor; lia|]. split.
   - intros k Hk.
     assert (Hc : (k = 1 \/ k = 2 \/ k = 3 \/ k = 4)%nat) by lia.
-    destruct Hc as [->|[->|[->|->]]]; eexists; (split; [vm_compute; reflexivity|]); vm_compute; auto.
+    destruct Hc as [ -> | [ -> | [ -> | -> ] ] ]; eexists; (split; [vm_compute; reflexivity|]); vm_compute; auto.
   - eexists. eexists. split; [vm_compute; reflexivity|]. vm_compute. auto.
 Qed.
